@@ -409,7 +409,11 @@ pub fn c18_case(data: &[u8]) -> c18::Case {
 pub fn c16_case(data: &[u8]) -> c16::Case {
     let mut d = D::new(data);
     let slots = if d.pick(6) == 0 { 0 } else { d.range(1, 4) as u8 };
-    let pdu_size = if d.pick(4) == 0 { d.range(1, 7) as u16 } else { d.range(8, 200) as u16 };
+    let pdu_size = match d.pick(9) {
+        0 | 1 => d.range(1, 7) as u16,
+        2 => d.range(4000, 9000) as u16,
+        _ => d.range(8, 200) as u16,
+    };
     let prefix = d.vec(0, 30, |d| match d.pick(14) {
         0..=7 => c16::Pre::Op(rx_op(d)),
         8..=11 => c16::Pre::Mutated { op: rx_op(d), muts: d.vec(1, 2, mutation) },
@@ -427,6 +431,7 @@ pub fn c16_case(data: &[u8]) -> c16::Case {
         probe2_len: d.u16(),
         probe2_cuts: d.vec(1, 3, |d| d.range(1, 99) as u16),
         probe2_ext: d.bool(),
+        probe2_reuse: d.pick(4) == 0,
     }
 }
 
